@@ -364,11 +364,28 @@ func (u *Unit) doReturn(st *State, fr *Frame, res []Val, in *ssa.Return) {
 
 func (u *Unit) doPanic(st *State, fr *Frame, v Term, site ssa.Instruction) {
 	st.Panicked = true
-	if fr.Parent == nil {
-		// explicit panic in the function under verification
-		u.topPanic(st, fr, v, site)
-	}
+	st.PanicVal = v
 	u.runDefers(st, fr, func(st *State, fr *Frame) {
+		if !st.Panicked {
+			// a deferred function recovered: the function returns normally, with its
+			// named results as they are now (the recover block) or with zero values
+			if fr.Fn.Recover != nil {
+				u.enterBlock(st, fr, fr.Fn.Recover, nil)
+				return
+			}
+			var res []Val
+			rs := fr.Fn.Signature.Results()
+			for i := 0; i < rs.Len(); i++ {
+				res = append(res, Val{T: u.Zero(rs.At(i).Type())})
+			}
+			u.doReturn(st, fr, res, nil)
+			return
+		}
+		if fr.Parent == nil {
+			// the panic leaves the function under verification; its panic clauses speak
+			// about the state after the deferred functions have run
+			u.topPanic(st, fr, v, site)
+		}
 		if fr.OnPanic != nil {
 			fr.OnPanic(st, fr.Parent, v)
 		}
@@ -392,6 +409,15 @@ func (u *Unit) step(st *State, fr *Frame, in ssa.Instruction, pred *ssa.BasicBlo
 	tw := u.P.TW
 	if len(u.borrows) > 0 {
 		u.borrowAtInstr(st, fr, in)
+	}
+	if fr.Parent != nil {
+		if x, ok := in.(*ssa.UnOp); ok && x.Op == token.MUL {
+			if g, isG := x.X.(*ssa.Global); isG && u.helperFrame(fr) {
+				// what a package-level variable holds is known only through contracts; a helper
+				// without contract that reads one is executed with an unknown value there
+				st.weaken("the helper " + fr.Fn.String() + ", which has no contract, reads the package-level variable " + g.Name() + ", whose contents are not modelled")
+			}
+		}
 	}
 	switch x := in.(type) {
 	case *ssa.DebugRef:
@@ -1273,4 +1299,21 @@ func (u *Unit) boundMethodOf(st *State, fr *Frame, x *ssa.MakeClosure) (*ssa.Fun
 		return nil, Term{}, false
 	}
 	return m, u.load(st, bv.T, derefType(a.Type())), true
+}
+
+// helperFrame: the frame executes a function of the module that has no contract
+// and is not a function literal of the unit's own function.
+func (u *Unit) helperFrame(fr *Frame) bool {
+	if fr == nil || fr.Fn == nil {
+		return false
+	}
+	for g := fr.Fn; g != nil; g = g.Parent() {
+		if g == u.Fn {
+			return false
+		}
+	}
+	if _, has := u.P.Contracts[fr.Fn]; has {
+		return false
+	}
+	return fr.Fn.Synthetic == ""
 }
